@@ -345,10 +345,17 @@ fn drain(s: &mut Sub) -> Vec<String> {
 async fn flush(nsubs: usize) -> bool {
     let before = vh::SUBS_FLUSHED.load(SeqCst);
     vh::FLUSH_GEN.fetch_add(1, SeqCst);
-    let deadline = Instant::now() + Duration::from_secs(30);
+    let deadline = Instant::now() + Duration::from_secs(60);
+    let mut bumped = Instant::now();
     while vh::SUBS_FLUSHED.load(SeqCst) < before + nsubs as u64 {
         if Instant::now() > deadline {
             return false;
+        }
+        // a matcher that entered its loop after the bump took the bumped value as its baseline:
+        // bump again (matchers that already flushed have nothing new and flush an empty batch)
+        if bumped.elapsed() > Duration::from_millis(1500) {
+            vh::FLUSH_GEN.fetch_add(1, SeqCst);
+            bumped = Instant::now();
         }
         tokio::time::sleep(Duration::from_millis(3)).await;
     }
